@@ -72,6 +72,7 @@ def main():
         out["body"] = T.COUNTS["body"]
         out["reach"] = T.COUNTS["reach"]
         out["traced_detail"] = T.TRACED[-3:]
+        out["dropped"] = T.COUNTS["dropped"]
     except BaseException as e:  # noqa
         out["verdict"] = "error"
         out["error"] = "".join(traceback.format_exception(type(e), e, e.__traceback__))[-3000:]
